@@ -578,6 +578,7 @@ pub fn run(tier: Tier) -> i32 {
             (vec!["create"], vcf.clone(), "create"),
             (vec!["create", "-p", "1", "--precision", "9"], vcf.clone(), "create -p"),
             (vec!["stat", "-s", "sum"], small.clone().into_bytes(), "stat"),
+            (vec!["stat", "-s", "sum,pi", "--header"], crate::subject::text_of(&crate::refmodel::RefArray::from_fn(&[6], |f, _| f as f64 + 1.0)).into_bytes(), "stat --header"),
         ];
         for (name, inp) in [("small", &small), ("big", &big)] {
             let _ = name;
@@ -587,16 +588,32 @@ pub fn run(tier: Tier) -> i32 {
             fjobs.push((vec!["view", "-o", "/dev/full"], inp.clone().into_bytes(), "view -o"));
             fjobs.push((vec!["view", "-O", "npy", "-o", "/dev/full"], inp.clone().into_bytes(), "view npy -o"));
         }
-        let res = par_map(fjobs.len(), |i| {
+        // each job with stdout on the full device (ENOSPC) and, when it writes to stdout, on a pipe
+        // whose reader is gone (EPIPE)
+        let mut sinks: Vec<(usize, &str)> = Vec::new();
+        for i in 0..fjobs.len() {
+            sinks.push((i, "full-device"));
+            if !fjobs[i].0.contains(&"-o") {
+                sinks.push((i, "closed-pipe"));
+            }
+        }
+        let res = par_map(sinks.len(), |k| {
+            let (i, sink) = sinks[k];
             let (args, inp, what) = &fjobs[i];
-            let o = if args.contains(&"-o") { run_sfs(args, Stdin::Bytes(inp), &scratch) } else { run_sfs_stdout_to(args, inp, full, &scratch) };
+            let o = if args.contains(&"-o") {
+                run_sfs(args, Stdin::Bytes(inp), &scratch)
+            } else if sink == "closed-pipe" {
+                crate::cli::run_sfs_stdout_closed_pipe(args, inp, &scratch)
+            } else {
+                run_sfs_stdout_to(args, inp, full, &scratch)
+            };
             if o.diagnosed_error() {
                 None
             } else {
                 Some((
-                    format!("C18|cli|write-failure-not-reported|{what}"),
-                    format!("sfs {args:?} writing {} bytes of input's result to a full device: {} stderr {:?}", inp.len(), o.status_str(), o.stderr_str().trim()),
-                    J::obj([("kind", J::s("c18-full")), ("argv", J::strs(args)), ("stdin_hex", J::s(crate::json::hex(inp)))]),
+                    format!("C18|cli|write-failure-not-reported|{what}|{sink}"),
+                    format!("sfs {args:?} writing the result for {} bytes of input to a {sink}: {} stderr {:?}", inp.len(), o.status_str(), o.stderr_str().trim()),
+                    J::obj([("kind", J::s("c18-full")), ("argv", J::strs(args)), ("sink", J::s(sink)), ("stdin_hex", J::s(crate::json::hex(inp)))]),
                 ))
             }
         });
@@ -604,10 +621,10 @@ pub fn run(tier: Tier) -> i32 {
             rep.violation(v.0, v.1, v.2);
         }
         rep.part(Part {
-            name: "cli: output onto a full device".into(),
-            evaluations: fjobs.len() as u64,
-            nontrivial: fjobs.len() as u64,
-            note: "create / view (text, npy) / fold / stat with stdout = /dev/full and with -o /dev/full, small and >64 KiB outputs: every write fails with ENOSPC, so the run must end in a diagnosed error".into(),
+            name: "cli: output onto a full device / a closed pipe".into(),
+            evaluations: sinks.len() as u64,
+            nontrivial: sinks.len() as u64,
+            note: "create / view (text, npy) / fold / stat (also with --header) with stdout = /dev/full, with stdout = a pipe whose reader is gone, and with -o /dev/full, small and >64 KiB outputs: every write fails (ENOSPC / EPIPE), so the run must end in a diagnosed error".into(),
             exhaustive: true,
             extra: vec![],
         });
@@ -657,7 +674,8 @@ pub fn replay(case: &J) -> Option<Vec<String>> {
             let args: Vec<String> = case.get("argv")?.as_arr()?.iter().filter_map(|a| a.as_str().map(|s| s.to_string())).collect();
             let a: Vec<&str> = args.iter().map(|s| s.as_str()).collect();
             let scratch = Scratch::new("c18r");
-            let o = if a.contains(&"-o") { run_sfs(&a, Stdin::Bytes(&inp), &scratch) } else { run_sfs_stdout_to(&a, &inp, std::path::Path::new("/dev/full"), &scratch) };
+            let closed = case.get("sink").and_then(|s| s.as_str()) == Some("closed-pipe");
+            let o = if a.contains(&"-o") { run_sfs(&a, Stdin::Bytes(&inp), &scratch) } else if closed { crate::cli::run_sfs_stdout_closed_pipe(&a, &inp, &scratch) } else { run_sfs_stdout_to(&a, &inp, std::path::Path::new("/dev/full"), &scratch) };
             Some(if o.diagnosed_error() { vec![] } else { vec![format!("C18|cli|write-failure-not-reported :: {a:?}: {} {:?}", o.status_str(), o.stderr_str())] })
         }
         "c18-spectrum-pipe" => {
